@@ -13,6 +13,7 @@ import GV.Basic.Hex
 import GV.Model.JsConv
 import GV.Model.CbGuard
 import GV.Model.CbHist
+import GV.Model.JsSlice
 import GV.Spec.JsTable
 
 namespace GV.Driver.C11
@@ -455,6 +456,25 @@ def handle : List String → String
     match parseUnits h with
     | some u => units16 (externalizeString (internalizeString u))
     | none => "bad-op"
+  | ["slice", t, b, chain] =>      -- a slice built by `new T(array)` and a chain of `$subslice(s, lo, hi, max)`, handed to JavaScript and back
+    match (parse t).bind toTy, (parse b).bind toGo with
+    | some e, some (.arr backing) =>
+      let triples := (chain.splitOn "/").mapM fun c =>
+        match (c.splitOn ":").mapM String.toNat? with
+        | some [lo, hi, mx] => some (lo, hi, mx)
+        | _ => none
+      match triples with
+      | some ts =>
+        let r := ts.foldl (fun (acc : Option (GV.JsSlice.SliceRep GoVal)) (x : Nat × Nat × Nat) =>
+          acc.bind (fun s => GV.JsSlice.subslice s x.1 x.2.1 x.2.2)) (some (GV.JsSlice.ofArray backing))
+        match r with
+        | none => "panic:slice-bounds"
+        | some sl =>
+          let v := GoVal.slice (GV.JsSlice.sliceToNative sl)
+          let ext := externalize (.slice e) v
+          s!"ext={showR showJs ext} nat={(GV.JsSlice.sliceToNative sl).length} rt={showR showGo (ext.bind (internalize (.slice e)))}"
+      | none => "bad-op"
+    | _, _ => "bad-op"
   | ["hist", cap, evs] =>
     match cap.toNat?, (evs.splitOn "|").mapM parseHEv with
     | some c, some es => runHist c es
